@@ -1,7 +1,6 @@
 package main
 
 import (
-	"strings"
 	"bufio"
 	"encoding/json"
 	"flag"
@@ -9,6 +8,7 @@ import (
 	"os"
 	"path/filepath"
 	"sort"
+	"strings"
 )
 
 // Ctx carries the output files of one harness run: cases.txt (operations, also fed to the Lean
